@@ -36,7 +36,7 @@ Section CliFacts.
       + assert (ty <> VStr (U"root")) as Hne by (intros ->; cbn in Ek; rewrite ustr_eqb_refl in Ek; discriminate).
         destruct (verify_delegation ed_verify sha256 ty u' t' (VBool false)) as [[]|e|] eqn:Ev; try discriminate.
         * intros _. exists t', u'. split; [reflexivity|]. split; [reflexivity|]. exists sd, ty. auto.
-        * destruct (is_cct e && is_str ty); [|discriminate]. intros [= H _].
+        * destruct (is_cct e && is_str ty && utf8_encodable ty); [|discriminate]. intros [= H _].
     - intros (t' & u' & -> & -> & sd & ty & E1 & E2 & H). rewrite E1. cbn [bind]. rewrite E2.
       destruct H as [[-> Hv]|[Hne Hv]].
       + cbn [key_is]. rewrite ustr_eqb_refl. rewrite Hv. reflexivity.
@@ -55,7 +55,7 @@ Section CliFacts.
     - destruct (verify_root ed_verify sha256 t' u') as [[]|e|]; [cbn; intros [= <-]; split; auto | | discriminate].
       destruct (is_cct e); cbn; intros [= <-]; split; try discriminate; intros H; contradiction.
     - destruct (verify_delegation ed_verify sha256 ty u' t' (VBool false)) as [[]|e|]; [cbn; intros [= <-]; split; auto | | discriminate].
-      destruct (is_cct e && is_str ty); cbn; intros [= <-]; split; try discriminate; intros H; contradiction.
+      destruct (is_cct e && is_str ty && utf8_encodable ty); cbn; intros [= <-]; split; try discriminate; intros H; contradiction.
   Qed.
 
   Theorem reject_codes t u c b : cvm t u = Exit c b -> (c = 0%Z /\ b = true) \/ ((c = 10%Z \/ c = 20%Z) /\ b = false).
@@ -67,7 +67,7 @@ Section CliFacts.
     - destruct (verify_root ed_verify sha256 t' u') as [[]|e|]; try discriminate; [intros [= <- <-]; auto|].
       destruct (is_cct e); [|discriminate]. intros [= <- <-]. rewrite C1. auto.
     - destruct (verify_delegation ed_verify sha256 ty u' t' (VBool false)) as [[]|e|]; try discriminate; [intros [= <- <-]; auto|].
-      destruct (is_cct e && is_str ty); [|discriminate]. intros [= <- <-]. rewrite C2. auto.
+      destruct (is_cct e && is_str ty && utf8_encodable ty); [|discriminate]. intros [= <- <-]. rewrite C2. auto.
   Qed.
 
   (* signing subcommand: status zero only if the key text normalises to a hex key and the file was signed *)
